@@ -1,6 +1,7 @@
 package sctp
 
 import (
+	"strings"
 	"context"
 	"errors"
 	"fmt"
@@ -449,7 +450,9 @@ func (m *Sim) snapConnect(ca, cb epCfg, tokCfg ...epCfg) {
 func propC04(j *Job) {
 	for _, il := range []bool{false, true} {
 		j.Explore(fmt.Sprintf("LT/il%v", il), lateT1InitScenario(epCfg{NoInterleave: !il, MTU: 228, RTOMax: 4000, InitTSN: 0xFFFFFFFD}, epCfg{Server: true, NoInterleave: !il, MTU: 228, RTOMax: 4000, InitTSN: 9}), Budget{}, nil)
+		j.Explore(fmt.Sprintf("LT/il%v/during", il), lateT1InitScenario(epCfg{NoInterleave: !il, MTU: 228, RTOMax: 4000, InitTSN: 0xFFFFFFFD}, epCfg{Server: true, NoInterleave: !il, MTU: 228, RTOMax: 4000, InitTSN: 9}, "during"), Budget{}, nil)
 	}
+	j.Explore("SI/stale-init-ext", staleInitExtScenario(), Budget{}, nil)
 	faults := faultSet{Drop: true, Dup: true, Late: true, Swap: true}
 	type role struct {
 		name string
@@ -521,7 +524,25 @@ func propC04(j *Job) {
 // T1-init has been stopped, and the handshake goes on to succeed on both sides: the connect
 // call must not be failed by the stale verdict.  (The client is built from the same pieces as
 // ClientWithOptions so that the harness holds the association before the call returns.)
-func lateT1InitScenario(a, b epCfg) *Scenario {
+// initAckHook runs a function on the read loop at the start of handleInitAck, i.e. with the
+// association lock held and the state still COOKIE-WAIT.
+type initAckHook struct {
+	nopLogger
+	f func()
+}
+
+func (l *initAckHook) Debugf(f string, _ ...any) {
+	if strings.Contains(f, "chunkInitAck received") && l.f != nil {
+		g := l.f
+		l.f = nil
+		g()
+	}
+}
+
+// variant "during": the verdict's callback starts while the read loop is inside the INIT ACK
+// handler (lock held, state still COOKIE-WAIT) and gets the lock when the handler is done.
+func lateT1InitScenario(a, b epCfg, variant ...string) *Scenario {
+	during := len(variant) > 0 && variant[0] == "during"
 	return &Scenario{
 		Name:    "late-t1-init",
 		Horizon: 120 * time.Second,
@@ -542,6 +563,12 @@ func lateT1InitScenario(a, b epCfg) *Scenario {
 				return
 			}
 			m.As[0] = A
+			if during {
+				A.log = &initAckHook{f: func() {
+					m.Go("late-t1-init", func() { A.onRetransmissionFailure(timerT1Init) })
+					m.Sleep(time.Millisecond) // the callback starts now and has to wait for the lock this thread holds
+				}}
+			}
 			A.initClient()
 			if !m.WaitUntil("cookie-echoed", 10*time.Second, func() bool { return A.getState() == cookieEchoed }) {
 				m.Failf("e1.base", "client never reached COOKIE-ECHOED (state %s)", getAssociationStateString(A.getState()))
@@ -549,7 +576,9 @@ func lateT1InitScenario(a, b epCfg) *Scenario {
 			// the connect call is waiting for the result all along (the sender blocks without a receiver)
 			var hsErr error
 			got := false
-			m.Go("late-t1-init", func() { A.onRetransmissionFailure(timerT1Init) })
+			if !during {
+				m.Go("late-t1-init", func() { A.onRetransmissionFailure(timerT1Init) })
+			}
 			m.WaitUntil("handshake-result", 20*time.Second, func() bool {
 				select {
 				case hsErr = <-A.handshakeCompletedCh:
@@ -571,5 +600,72 @@ func lateT1InitScenario(a, b epCfg) *Scenario {
 			(&wconn{w: m.W, id: 1}).Close()
 		},
 		Final: func(m *Sim, x *Exec) { generalVerdicts(m, x, true) },
+	}
+}
+
+// staleInitExtScenario: the client (interleaving enabled) waits for the INIT ACK of a peer
+// without interleaving when an INIT of an earlier, differently configured incarnation of the
+// peer arrives that offers I-DATA and I-FORWARD-TSN.  What the association negotiates follows
+// the INIT ACK that its COOKIE ECHO answers: plain DATA, FORWARD-TSN.
+func staleInitExtScenario() *Scenario {
+	return &Scenario{
+		Name:    "stale-init-ext",
+		Horizon: 60 * time.Second,
+		Setup:   func(m *Sim) { m.W.delay = [2]time.Duration{time.Millisecond, time.Millisecond} },
+		Body: func(m *Sim) {
+			cfg := epCfg{MTU: 228, RTOMax: 4000, InitTSN: 91}
+			p := newScripted(m, cfg, false, false)
+			p.dialT = m.Go("dial", func() { m.Dial(0, cfg) })
+			out := p.settle(0)
+			if len(out) == 0 || out[0].dec == nil || out[0].dec.Chunks[0].Typ != wINIT {
+				m.Failf("e2.base", "no INIT")
+				c03Teardown(m, p)
+				return
+			}
+			stale := wNewPacket(5000, 5000, 0)
+			stale.rawChunk(chunkBytes(wINIT, 0, wInitVal(p.tag+77, p.arwnd, 65535, 65535, p.tsn0+1000, wTLVBytes(0x8008, []byte{130, 192, 64, 194}, false))))
+			p.inject(stale.bytes(true))
+			cookie := []byte("cookie-cookie-cookie-cookie-1234")
+			iack := chunkBytes(wINITACK, 0, wInitVal(p.tag, p.arwnd, 65535, 65535, p.tsn0, wTLVBytes(7, cookie, true), wTLVBytes(0x8008, []byte{130, 192}, false)))
+			out = p.inject(p.pkt(iack))
+			gotEcho := false
+			for _, o := range out {
+				if o.dec != nil && o.dec.Chunks[0].Typ == wCOOKIEECHO {
+					gotEcho = true
+				}
+			}
+			if !gotEcho {
+				m.Failf("e2.base", "no COOKIE-ECHO after the genuine INIT-ACK")
+				c03Teardown(m, p)
+				return
+			}
+			p.inject(p.pkt(chunkBytes(wCOOKIEACK, 0, nil)))
+			m.S.Join(p.dialT)
+			p.a = m.As[0]
+			if p.a == nil {
+				m.Failf("e2.base", "handshake did not complete: %v", m.Err[0])
+				c03Teardown(m, p)
+				return
+			}
+			md, _ := p.a.Metadata()
+			if md.MessageInterleavingEnabled || md.PartialReliabilityMode != PartialReliabilityModeForwardTSN {
+				m.Failf("negotiation.interleaving", "the peer's INIT ACK offers neither I-DATA nor I-FORWARD-TSN, a stale INIT handled before it did: the client reports interleaving=%v, partial reliability mode %d", md.MessageInterleavingEnabled, md.PartialReliabilityMode)
+			}
+			s, _ := p.a.OpenStream(2, PayloadTypeWebRTCBinary)
+			_, _ = s.WriteSCTP(payload(2, 0, 300), PayloadTypeWebRTCBinary)
+			p.settle(0)
+			for _, ev := range m.W.events {
+				if ev.Kind == "send" && ev.From == 0 && ev.Pkt.dec != nil {
+					for _, c := range ev.Pkt.dec.Chunks {
+						if c.Typ == wIDATA {
+							m.Failf("kind.data", "the client frames its data as I-DATA towards a peer whose INIT ACK did not offer it")
+						}
+					}
+				}
+			}
+			m.Observe("il=%v", md.MessageInterleavingEnabled)
+			c03Teardown(m, p)
+		},
+		Final: func(m *Sim, x *Exec) { generalVerdicts(m, x, false) },
 	}
 }
